@@ -75,12 +75,21 @@ pub fn typing(nil_ne: bool) -> (String, Uni) {
     (format!("typing:nilne={}", nil_ne as u8), uni)
 }
 
+/// Nesting universe (C13): `t:Bool xb:Array(Bool) s:Bytes` + identity functions
+/// (`fade` is made of hex letters only and goes through the argument lexer's fallback path).
+pub fn nest() -> (String, Uni) {
+    let fields: Vec<(&str, Ty, bool)> =
+        vec![("t", Ty::Bool, true), ("xb", Ty::arr(Ty::Bool), true), ("s", Ty::Bytes, true), ("b", Ty::Bool, true)];
+    ("nest".to_string(), Uni::new(&fields, &["fb", "fa", "fade", "pick", "idb"], true))
+}
+
 pub fn by_tag(tag: &str) -> Option<Uni> {
     let head = tag.split(':').next()?;
     match head {
         "scalar" => Some(scalar(flag(tag, "opt"), flag(tag, "nilne")).1),
         "containers" => Some(containers(flag(tag, "nilne")).1),
         "typing" => Some(typing(flag(tag, "nilne")).1),
+        "nest" => Some(nest().1),
         _ => crate::checks::universe_by_tag(tag),
     }
 }
